@@ -65,6 +65,12 @@ func (p *RDP) Marshal(o map[string]interface{}) ([]byte, error) {
 
 	for _, key := range keys {
 		v := o[key]
+		if !representable(key) || key == "" || strings.Contains(key, ":") || strings.HasPrefix(key, "#") {
+			return nil, fmt.Errorf("error marshalling: setting name %q cannot be written as a line", key)
+		}
+		if s, ok := v.(string); ok && !representable(s) {
+			return nil, fmt.Errorf("error marshalling: value of %s cannot be written as a line", key)
+		}
 		switch v.(type) {
 		case bool:
 			if v == true {
@@ -82,4 +88,10 @@ func (p *RDP) Marshal(o map[string]interface{}) ([]byte, error) {
 		fmt.Fprint(&b, "\r\n")
 	}
 	return b.Bytes(), nil
+}
+
+// representable reports whether s survives being written into a name:type:value line and read
+// back: lines end at a line break and the reader trims blanks around every field
+func representable(s string) bool {
+	return !strings.ContainsAny(s, "\r\n") && strings.TrimSpace(s) == s
 }
